@@ -98,6 +98,33 @@ def main(tier):
                            detail=None if ok else "no division of the un-rotated vector by the mesh", key="C16|%s|mesh-after" % sig)
                 else:
                     n -= 1
+    # integer index of a coordinate: rounded DOWN (floor), never truncated towards zero (a point just below the origin would get
+    # index 0 instead of -1 and be reported inside the grid)
+    ncast = 0
+    for name in INVERSE:
+        for f in [f for f in prog.fns(name) if f.body is not None]:
+            for x in f.walk():
+                if x["k"] != "Cast" or (x.get("t") or "") != "int" or not x.get("c") or x["c"][0] is None:
+                    continue
+                e = x["c"][0]
+                while e["k"] == "Cast" and (e.get("t") or "") != "int":
+                    e = e["c"][0]
+                if e["k"] == "Call" and (e.get("callee") or "") in ("floor", "std::floor"):
+                    ncast += 1
+                    n += 1
+                    chk.ob("C16", "%s (inverse): the index is the floor of the scaled coordinate" % f.sig(), f.loc(x), True,
+                           key="C16|%s/%d|floor#%d" % (f.name, len(f.params), ncast))
+                elif e["k"] == "BinOp" and e.get("op") in ("+", "-", "*", "/") and any(
+                        (y["k"] == "BinOp" and y.get("op") == "/") or y["k"] == "Float" for y in walk(e)):
+                    ncast += 1
+                    n += 1
+                    chk.analysed(f)
+                    chk.ob("C16", "%s (inverse): the index is the floor of the scaled coordinate" % f.sig(), f.loc(x), False,
+                           detail="`(int)(%s)` truncates towards zero: a coordinate less than one mesh below the origin gets index 0 instead of -1, so a "
+                           "point outside the grid is assigned to a cell (and the conversion is no longer the inverse of indices -> coordinates)" % show(e)[:50],
+                           key="C16|%s/%d|floor#%d" % (f.name, len(f.params), ncast))
+    if ncast < 2:
+        raise facts.AnalysisBroken("C16: integer conversions of the inverse routines not found (%d)" % ncast)
     # Rotation class
     rd = [f for f in prog.fns("Rotation::rotateDirect")]
     ri = [f for f in prog.fns("Rotation::rotateInverse")]
